@@ -28,8 +28,9 @@ type violation struct {
 }
 
 type c20Case struct {
-	ID  int         `json:"id"`
-	Ops []mstore.Op `json:"ops"`
+	ID    int         `json:"id"`
+	Ops   []mstore.Op `json:"ops"`
+	Dedup bool        `json:"dedup_remote,omitempty"` // the scripted remote de-duplicates
 }
 
 const (
@@ -281,7 +282,11 @@ func genOp(rng *common.Rng, d mstore.Dump, nlits int) mstore.Op {
 			if l >= nlits {
 				l = nlits - 1
 			}
-			return mstore.Op{Kind: "append", Name: pick(normal), Lit: l, Remote: rem, Sess: rng.Pick(2)}
+			fl := ""
+			if rng.Chance(0.3) {
+				fl = []string{`\Deleted`, `\Seen \Deleted`, `\Seen`, `\Deleted \Flagged`, `\Flagged \Seen`}[rng.Pick(5)]
+			}
+			return mstore.Op{Kind: "append", Name: pick(normal), Lit: l, Flags: fl, Remote: rem, Sess: rng.Pick(2)}
 		case x < 60:
 			if rec == nil || len(rec.Rows) == 0 {
 				continue
@@ -369,16 +374,16 @@ func boolInt(b bool) int {
 	return 0
 }
 
-func runOps(ops []mstore.Op) (*violation, error) {
+func runOps(ops []mstore.Op, dedup bool) (*violation, error) {
 	lits := newLits()
-	w, err := mstore.NewWorld(mstore.Config{Burn: 20, BurnStep: 60}, lits)
+	w, err := mstore.NewWorld(mstore.Config{Burn: 20, BurnStep: 60, Dedup: dedup}, lits)
 	if err != nil {
 		return nil, err
 	}
 	defer w.Close()
 	var first *violation
 	_, _, err = mstore.Replay(w, ops, func(i int, o mstore.Op, ob mstore.Obs, before, aft mstore.Dump) bool {
-		for _, v := range observe(lits, o, ob, before, aft) {
+		for _, v := range observe(lits, o, ob, before, aft, dedup) {
 			if v.D17 {
 				continue
 			}
@@ -418,14 +423,18 @@ func runC20(ctx *common.Ctx) error {
 			return
 		}
 		ops := mstore.Shrink(cs.Ops, 40, func(c []mstore.Op) bool {
-			v2, err := runOps(c)
+			v2, err := runOps(c, cs.Dedup)
 			return err == nil && v2 != nil && v2.Kind == v.Kind
 		})
-		res.Fail(v.Kind+" ["+mstore.OpsString(ops)+"]", v.Detail, cs)
+		pre := ""
+		if cs.Dedup {
+			pre = "de-duplicating remote: "
+		}
+		res.Fail(v.Kind+" ["+pre+mstore.OpsString(ops)+"]", v.Detail, cs)
 	}
 	runCase := func(cs *c20Case, next func(d mstore.Dump, i int) *mstore.Op) error {
 		lits := newLits()
-		w, err := mstore.NewWorld(mstore.Config{Burn: 20, BurnStep: 60}, lits)
+		w, err := mstore.NewWorld(mstore.Config{Burn: 20, BurnStep: 60, Dedup: cs.Dedup}, lits)
 		if err != nil {
 			return err
 		}
@@ -443,7 +452,7 @@ func runC20(ctx *common.Ctx) error {
 			if targetsRecovery(o) {
 				res.Count("aimed-at-recovery")
 			}
-			for _, v := range observe(lits, o, ob, before, aft) {
+			for _, v := range observe(lits, o, ob, before, aft, cs.Dedup) {
 				if v.D17 {
 					// recorded finding: the history stays consistent with the model (which deduplicates by hash), go on
 					if !d17 {
@@ -475,9 +484,9 @@ func runC20(ctx *common.Ctx) error {
 		res.Sample(cs)
 		return nil
 	}
-	fixed := func(ops []mstore.Op) error {
+	fixedD := func(ops []mstore.Op, dedup bool) error {
 		id++
-		cs := &c20Case{ID: id, Ops: ops}
+		cs := &c20Case{ID: id, Ops: ops, Dedup: dedup}
 		ctx.Current("history ["+mstore.OpsString(ops)+"]", cs)
 		return runCase(cs, func(d mstore.Dump, i int) *mstore.Op {
 			if i >= len(ops) {
@@ -486,6 +495,7 @@ func runC20(ctx *common.Ctx) error {
 			return &ops[i]
 		})
 	}
+	fixed := func(ops []mstore.Op) error { return fixedD(ops, false) }
 	// ---- corpus ----
 	// near-duplicate: literal 4 = class 0 variant 1 (other Date, Message-Id, extra header)
 	if err := fixed([]mstore.Op{{Kind: "append", Name: "INBOX", Lit: 0, Remote: "fail"}, {Kind: "append", Name: "INBOX", Lit: 4, Remote: "fail"}}); err != nil {
@@ -519,6 +529,40 @@ func runC20(ctx *common.Ctx) error {
 		{Kind: "append", Name: "INBOX", Lit: 2, Remote: "fail"}, {Kind: "append", Name: "INBOX", Lit: 1, Remote: "fail"}}); err != nil {
 		return err
 	}
+	// de-duplicating remote: the recovered message is moved / copied out while the remote already has the same bytes in
+	// ANOTHER mailbox, in the DESTINATION, nowhere
+	rejA := func(name string, lit int) mstore.Op {
+		return mstore.Op{Kind: "append", Name: name, Lit: lit, Remote: "fail"}
+	}
+	okA := func(name string, lit int) mstore.Op {
+		return mstore.Op{Kind: "append", Name: name, Lit: lit, Remote: "ok"}
+	}
+	out := func(kind string, uids []int, dst string) mstore.Op {
+		return mstore.Op{Kind: kind, Name: mstore.RecoveryName, UIDs: uids, Name2: dst, CreateOK: true, LabelOK: true}
+	}
+	mkx := mstore.Op{Kind: "create", Name: "x", RemoteOK: true}
+	for _, ops := range [][]mstore.Op{
+		{mkx, rejA("INBOX", 0), okA("x", 0), out("move", []int{1}, "INBOX")},
+		{mkx, rejA("INBOX", 0), okA("x", 0), out("copy", []int{1}, "INBOX"), out("move", []int{1}, "INBOX")},
+		{mkx, rejA("x", 1), okA("INBOX", 1), out("move", []int{1}, "INBOX"), rejA("x", 1), out("copy", []int{2}, "x")},
+		{mkx, rejA("x", 2), rejA("x", 3), okA("x", 3), out("move", []int{1, 2}, "INBOX"), okA("INBOX", 2), okA("x", 2)},
+		{mkx, okA("x", 0), okA("INBOX", 0), okA("x", 0), rejA("INBOX", 0), out("move", []int{1}, "x")},
+	} {
+		if err := fixedD(ops, true); err != nil {
+			return err
+		}
+	}
+	// APPEND with flag lists, \Deleted alone and combined, accepted and rejected
+	{
+		var ops []mstore.Op
+		for i, f := range []string{`\Deleted`, `\Seen \Deleted`, `\Deleted \Flagged`, `\Seen`, `\Seen \Flagged \Deleted`} {
+			ops = append(ops, mstore.Op{Kind: "append", Name: "INBOX", Lit: i, Flags: f, Remote: "fail"},
+				mstore.Op{Kind: "append", Name: "INBOX", Lit: i, Flags: f, Remote: "ok"})
+		}
+		if err := fixed(ops); err != nil {
+			return err
+		}
+	}
 	// every literal of the family rejected once: the ones that differ in a hashed item must all be kept
 	{
 		var ops []mstore.Op
@@ -550,7 +594,7 @@ func runC20(ctx *common.Ctx) error {
 	// ---- random histories ----
 	for ci := 0; ci < ncases; ci++ {
 		id++
-		cs := &c20Case{ID: id}
+		cs := &c20Case{ID: id, Dedup: ci%4 == 3}
 		restarts := 0
 		if err := runCase(cs, func(d mstore.Dump, i int) *mstore.Op {
 			if i >= nops {
